@@ -105,6 +105,74 @@ def table_programs():
     return progs
 
 
+NEST_TRIPLES = [(7, 5, 3), (-7, 5, 3), (100, 7, -2), (2, 3, 5), (-9, -4, 2), (I64_MAX, 2, 3), (6, 4, 2), (1, 2, 3), (-1, I64_MIN, 7), (5, 5, 5)]
+
+
+def _safe(f):
+    try:
+        return f()
+    except (ZeroDivisionError, ValueError):
+        return None
+
+
+def _mi(op, a, b):
+    if a is None or b is None:
+        return None
+    if op in "/%" and (b == 0 or (a == I64_MIN and b == -1)):
+        return None
+    return model_int(op, a, b)
+
+
+def nesting_programs():
+    """Grouping is by parentheses only (SPECIFICATION 4.3/4.4: no precedence, infix strictly left to right): every
+    (outer, inner) pair of arithmetic operators in every position, in prefix, parenthesised infix and unparenthesised infix
+    form; comparisons over arithmetic; negation of and by a nested operand.  One function per shape (operands are
+    parameters, so nothing is folded), a handful of operand triples chosen so that every regrouping changes some result."""
+    progs = []
+    shapes = []      # (label, return type, body expression, model(a,b,c))
+    for o in ARITH:
+        for i in ARITH:
+            on, inn = ARITH[o], ARITH[i]
+            shapes.append(("pre %s %s L" % (on, inn), "int", "(%s (%s a b) c)" % (o, i), lambda a, b, c, o=o, i=i: _mi(o, _mi(i, a, b), c)))
+            shapes.append(("pre %s %s R" % (on, inn), "int", "(%s a (%s b c))" % (o, i), lambda a, b, c, o=o, i=i: _mi(o, a, _mi(i, b, c))))
+            shapes.append(("inf %s %s L" % (on, inn), "int", "((a %s b) %s c)" % (i, o), lambda a, b, c, o=o, i=i: _mi(o, _mi(i, a, b), c)))
+            shapes.append(("inf %s %s R" % (on, inn), "int", "(a %s (b %s c))" % (o, i), lambda a, b, c, o=o, i=i: _mi(o, a, _mi(i, b, c))))
+            shapes.append(("chain %s %s -" % (inn, on), "int", "(a %s b %s c)" % (i, o), lambda a, b, c, o=o, i=i: _mi(o, _mi(i, a, b), c)))
+    for o in CMP:
+        for i in ARITH:
+            on, inn = CMP[o], ARITH[i]
+            shapes.append(("pre %s %s L" % (on, inn), "bool", "(%s (%s a b) c)" % (o, i),
+                           lambda a, b, c, o=o, i=i: None if _mi(i, a, b) is None else model_cmp(o, _mi(i, a, b), c)))
+            shapes.append(("pre %s %s R" % (on, inn), "bool", "(%s a (%s b c))" % (o, i),
+                           lambda a, b, c, o=o, i=i: None if _mi(i, b, c) is None else model_cmp(o, a, _mi(i, b, c))))
+    for i in ARITH:
+        inn = ARITH[i]
+        shapes.append(("pre neg %s -" % inn, "int", "(- (%s a b))" % i, lambda a, b, c, i=i: None if _mi(i, a, b) is None else wrap(-_mi(i, a, b))))
+        shapes.append(("pre %s neg R" % inn, "int", "(%s a (- b))" % i, lambda a, b, c, i=i: _mi(i, a, wrap(-b))))
+        shapes.append(("pre %s neg L" % inn, "int", "(%s (- a) b)" % i, lambda a, b, c, i=i: _mi(i, wrap(-a), b)))
+    for form in ("pre", "inf", "chain"):
+        fns, lines, exp, n = [], [], [], 0
+        for k, (lab, ty, body, model) in enumerate([s_ for s_ in shapes if s_[0].startswith(form + " ")]):
+            fn = "n%d" % k
+            fns.append("fn %s(a: int, b: int, c: int) -> %s {\n    return %s\n}\nshadow %s { assert true }\n" % (fn, ty, body, fn))
+            for t, (a, b, c) in enumerate(NEST_TRIPLES):
+                r = model(a, b, c)
+                if r is None:
+                    continue
+                tag = "%s %d " % (lab, t)
+                lines.append('    (print "%s")' % tag)
+                lines.append("    (println (%s %s %s %s))" % (fn, lit(a), lit(b), lit(c)))
+                exp.append(tag + ("true" if r is True else "false" if r is False else str(r)))
+                n += 1
+        chunks = [lines[k:k + 200] for k in range(0, len(lines), 200)]
+        text = "".join(fns)
+        for ci, ch in enumerate(chunks):
+            text += "fn t%d() -> int {\n%s\n    return 0\n}\nshadow t%d { assert true }\n" % (ci, "\n".join(ch), ci)
+        text += "fn main() -> int {\n" + "".join("    (t%d)\n" % ci for ci in range(len(chunks))) + '    (println "SENTINEL")\n    return 0\n}\nshadow main { assert true }\n'
+        progs.append(("nest_" + form, text, "\n".join(exp) + "\nSENTINEL\n", n))
+    return progs
+
+
 def fault_cells():
     """cells whose evaluation may kill the process: one per process.  Expectation per DESIGN: wrap."""
     out = []
@@ -217,7 +285,8 @@ def run(ctx):
         table = table_programs()
         cells = order_cells()
         faults = fault_cells()
-        items = [("table", t) for t in table] + [("cell", c) for c in cells] + [("fault", f) for f in faults]
+        nests = nesting_programs()
+        items = [("table", t) for t in table] + [("nest", t) for t in nests] + [("cell", c) for c in cells] + [("fault", f) for f in faults]
         cen = [("census", (n, t, e, 1)) for n, t, e in sweep.census_cells()]
         hostile = sweep.collision_string_programs(plain, ctx.rng("collide"), want=ctx.n(6, 40))
         ctx.require(len(hostile) >= 3, "could not find hash-colliding string pairs")
@@ -230,6 +299,7 @@ def run(ctx):
             return item, o
 
         table_cells = {"native": 0, "vm": 0}
+        nest_cells = {"native": 0, "vm": 0}
         cell_hist = {}
         results = pmap(do, items + cen)
         for (kind, (name, text, exp, ncell)), o in results:
@@ -238,7 +308,7 @@ def run(ctx):
             for eng, res in (("native", o.native), ("vm", o.vm)):
                 if eng == "native" and not o.built:
                     cell_hist["native:skip-build-failed"] = cell_hist.get("native:skip-build-failed", 0) + 1
-                    if kind in ("table", "fault"):
+                    if kind in ("table", "fault", "nest"):
                         ctx.violation("%s|%s|native-build" % (kind, name), "table program %s does not build natively: %s" % (name, engines.classify_nanoc_failure(o.nanoc)),
                                       {"main.nano": text, "nanoc.stderr": o.nanoc.err})
                     continue
@@ -247,6 +317,19 @@ def run(ctx):
                 if kind == "census":
                     mm = re.search(r"<<S\n(.*?)>>E\n", got, re.S)
                     got = mm.group(1) if mm else got
+                if kind == "nest":
+                    if "SENTINEL" not in got:
+                        ctx.violation("nest|%s|%s|truncated" % (name, eng), "%s: %s run of the nesting table ended early (status %s): %s" % (name, eng, res.status, res.errtext()[-300:]),
+                                      {"main.nano": text, "stdout": res.out})
+                        continue
+                    gl, wl = got.splitlines(), want.splitlines()
+                    nest_cells[eng] += len(wl) - 1
+                    for w, g in [(w, g) for w, g in zip(wl, gl) if w != g][:50]:
+                        form, outer, inner, pos, t = w.split()[:5]
+                        ctx.violation("nest|%s|%s|%s|%s|%s" % (form, outer, inner, pos, eng),
+                                      "grouping: %s form, outer %s, inner %s (position %s), operands %s on %s: expected '%s' got '%s'" % (
+                                          form, outer, inner, pos, NEST_TRIPLES[int(t)], eng, w, g), {"main.nano": text})
+                    continue
                 if kind == "table":
                     # never judge from a truncated stream
                     if "SENTINEL" not in got:
@@ -272,6 +355,7 @@ def run(ctx):
                         kind, name, eng, want[:200], got[:200], res.status, " stderr: " + res.errtext().strip()[-160:] if res.status not in (0,) else ""),
                         {"main.nano": text, "expected.stdout": want, eng + ".stdout": res.out})
         ctx.require(table_cells["vm"] > 2000 and table_cells["native"] > 2000, "operator tables incomplete: %s" % table_cells)
+        ctx.require(nest_cells["vm"] > 1000 and nest_cells["native"] > 1000, "nesting tables incomplete: %s" % nest_cells)
 
         # ---- NanoCore: functions labelled verified vs the Coq relation ------------------
         nc_text, nc_cells = nanocore_program()
@@ -343,13 +427,15 @@ def run(ctx):
         samples.append({"order_cell": cells[0][0], "program": cells[0][1], "expected": cells[0][2]})
         n_table = sum(t[3] for t in table)
         return ctx.finish({
-            "evaluations": n_table * 2 + (len(cells) + len(faults) + len(cen)) * 2 + len(batch) * 2 + nanocore_cells,
-            "distinct_nontrivial": n_table + len(cells) + len(cen) + len(fsets),
+            "evaluations": n_table * 2 + sum(nest_cells.values()) + (len(cells) + len(faults) + len(cen)) * 2 + len(batch) * 2 + nanocore_cells,
+            "distinct_nontrivial": n_table + sum(t[3] for t in nests) + len(cells) + len(cen) + len(fsets),
             "rule": "distinct table cells (operator, a, b) + distinct order/scope/short-circuit cells + census cells + distinct feature sets "
                     "of generated programs whose >= 10 output lines equalled the model on the VM",
             "exhaustive": True,
             "explanation": "the operator x boundary-value table (%d cells per engine over %d values) is enumerated completely; the program sweep is sampled" % (n_table, len(VALUES)),
             "table_cells_per_engine": table_cells,
+            "nesting_cells_per_engine": nest_cells,
+            "nesting_shapes": "25 (outer, inner) arithmetic pairs x {prefix L/R, parenthesised infix L/R, unparenthesised infix chain}, 30 comparison-over-arithmetic x L/R, negation of/by a nested operand; %d operand triples" % len(NEST_TRIPLES),
             "values": [str(v) for v in VALUES],
             "cells": {"order_scope_shortcircuit": len(cells), "fault": len(faults), "census": len(cen), "nanocore": nanocore_cells},
             "cell_outcomes": cell_hist,
